@@ -71,8 +71,37 @@ Definition j_read (b : bytes) : option jmsg :=
   end.
 
 Definition j_is_response (m : jmsg) : bool := has_prefix (s2b "SIP/") (jm_start m).
-Definition j_flat (p : bytes -> bool) (hs : list (bytes * bytes)) : list bytes :=
-  flat_map (fun h => if p (fst h) then map trim_space (split_byte ","%char (snd h)) else []) hs.
+(* The entries of the comma-separated header values whose name satisfies [p], each trimmed by [tr].
+   LEFT end of an entry: strings.TrimSpace semantics (ASCII blanks and the UTF-8 encodings of the
+   Unicode White_Space runes), for every kind of list.  The proxy reads a header value through
+   strings.TrimSpace (parseHeaderLine; [j_header] mirrors it), so the FIRST entry of a value is seen
+   without leading white space while an entry that follows a comma is not; an entry that follows a
+   comma on the input side can be the first entry of a re-encoded value on the output side (the Via /
+   Route entries in front of it were popped), hence both sides must be read the same way.  Nothing is
+   ever written in front of the text of an entry, so trimming its left end loses nothing.
+   RIGHT end:
+   - Route / Record-Route entries ([j_flat]): strings.TrimSpace semantics as well.  parseRouteParam
+     applies strings.TrimSpace to the text after '>', so a decoded and re-encoded entry has lost the
+     white space (ASCII or Unicode) its parameter tail ended with, also in the middle of a list
+     ("<a>,<b>;lr" C2 A0 ",<c>" is relayed as "<b>;lr,<c>").
+   - Via entries ([j_flat_via]): ASCII blanks only, NOT the Unicode ones.  ParseVia cuts the entry at
+     ';' and keeps every parameter as it stands (no TrimSpace), and the proxy writes ";received=..."
+     BEHIND the last parameter of the top entry.  Two counter-examples to trimming the right end of a
+     Via entry with TrimSpace semantics (both inside the C14 grammar, whose parameter values may hold
+     bytes >= 128):
+       request  "Via: SIP/2.0/UDP h;x=a" C2 A0 ",SIP/2.0/TCP g": relayed, correctly, as
+                "SIP/2.0/UDP h;x=a" C2 A0 ";received=...": the parameter x keeps its two bytes in the
+                output, a reader that dropped them on the input side would reject the relay (C07);
+       response whose second entry is "...;rport=40000;received=127.0.0.9" C2 A0 ",...": the proxy
+                looks up the host "127.0.0.9" C2 A0 (unknown: nothing is sent), a reader that
+                dropped the two bytes would demand a datagram to 127.0.0.9:40000 (C02).
+     (A Via entry that is the LAST of its value has been trimmed by the proxy itself, with the value;
+     [j_header] does the same.) *)
+Definition j_entries (tr : bytes -> bytes) (p : bytes -> bool) (hs : list (bytes * bytes)) : list bytes :=
+  flat_map (fun h => if p (fst h) then map tr (split_byte ","%char (snd h)) else []) hs.
+Definition j_flat (p : bytes -> bool) (hs : list (bytes * bytes)) : list bytes := j_entries trim_space_go p hs.
+Definition j_trim_via (e : bytes) : bytes := trim_right (trim_left_go e).
+Definition j_flat_via (hs : list (bytes * bytes)) : list bytes := j_entries j_trim_via is_via hs.
 Definition j_first (p : bytes -> bool) (hs : list (bytes * bytes)) : option bytes :=
   match filter (fun h => p (fst h)) hs with h :: _ => Some (snd h) | [] => None end.
 
@@ -201,7 +230,7 @@ Definition j_learn (st : jstate) (i : jin) (m : jmsg) : list (bytes * (nat * boo
   if j_is_response m then js_learned st
   else
     let hosts := ji_src i :: flat_map (fun e => match j_via e with Some v => [jv_host v] | None => [] end)
-                                      (j_flat is_via (jm_headers m)) in
+                                      (j_flat_via (jm_headers m)) in
     fold_left (fun l h => aset h (ji_li i, ji_tcp i) l) hosts (js_learned st).
 
 (* a connection the proxy opened: label "dial:<ip>:<port>", payload = the connection's id; it
@@ -389,7 +418,7 @@ Definition judge_C02_event (pc : proxy_case) (st : jstate) (ev : event) (outs : 
       match j_read (ji_data i) with
       | Some m =>
           if (j_is_response m && jm_has_cl m && (negb (ji_tcp i) || single_message m))%bool then
-            let es := j_flat is_via (jm_headers m) in
+            let es := j_flat_via (jm_headers m) in
             let ms := msgs_of outs in
             match es with
             | [] | [_] => if dest_ok pc st JDrop ms then O else 1%nat
@@ -412,7 +441,7 @@ Definition judge_C02_event (pc : proxy_case) (st : jstate) (ev : event) (outs : 
                              | [(_, ob)] =>
                                  match j_read ob with
                                  | Some om =>
-                                     match opt_all (map j_via (j_flat is_via (jm_headers om))) with
+                                     match opt_all (map j_via (j_flat_via (jm_headers om))) with
                                      | Some ovs =>
                                          if (Nat.eqb (List.length ovs) (S (List.length vrest)) &&
                                              forallb (fun '(a, b) => jvia_eqb a b) (combine ovs (v2 :: vrest)))%bool
@@ -574,13 +603,13 @@ Definition judge_C07_event (pc : proxy_case) (st : jstate) (ev : event) (outs : 
       match j_read (ji_data i), nth_opt (c_listens c) (ji_li i) with
       | Some m, Some lc =>
           if (negb (j_is_response m) && jm_has_cl m && (negb (ji_tcp i) || single_message m))%bool then
-            match opt_all (map j_via (j_flat is_via (jm_headers m))) with
+            match opt_all (map j_via (j_flat_via (jm_headers m))) with
             | Some (v1 :: vrest) =>
                 let want := stamped (received_on lc) (ji_src i) (ji_sport i) v1 :: vrest in
                 first_nonzero (map (fun o =>
                   match j_read (snd o) with
                   | Some om =>
-                      match opt_all (map j_via (j_flat is_via (jm_headers om))) with
+                      match opt_all (map j_via (j_flat_via (jm_headers om))) with
                       | Some ovs =>
                           let ovs' := match ovs with
                                       | v :: r => if Nat.ltb (List.length want) (List.length ovs) then r else ovs
@@ -619,7 +648,7 @@ Definition judge_C06_event (pc : proxy_case) (st : jstate) (ev : event) (outs : 
       match j_read (ji_data i), nth_opt (c_listens c) (ji_li i) with
       | Some m, Some lc =>
           if (negb (j_is_response m) && jm_has_cl m && (negb (ji_tcp i) || single_message m))%bool then
-            match j_request m, opt_all (map j_via (j_flat is_via (jm_headers m))) with
+            match j_request m, opt_all (map j_via (j_flat_via (jm_headers m))) with
             | Some q, Some ivs =>
                 (* the table as it is AFTER this request has been learned from *)
                 let learned := j_learn st i m in
@@ -653,7 +682,7 @@ Definition judge_C06_event (pc : proxy_case) (st : jstate) (ev : event) (outs : 
                 first_nonzero (map (fun o =>
                   match j_read (snd o) with
                   | Some om =>
-                      match opt_all (map j_via (j_flat is_via (jm_headers om))) with
+                      match opt_all (map j_via (j_flat_via (jm_headers om))) with
                       | Some ovs =>
                           let out_rr := j_flat is_rr (jm_headers om) in
                           match ident with
